@@ -300,7 +300,7 @@ def run_lines(ctx, name, lines, cdir, trace=None, harness_cmd=None, inst_div=Non
         for o in lines:
             f.write(json.dumps(o) + '\n')
     outdir = os.path.join(cdir, 'trace')
-    shards = 1 if len(lines) < 4 else 16
+    shards = 1 if len(lines) < 4 else max(16, min(512, len(lines) // 3000))
     hr = core.run_harness(ctx, [harness_cmd, '--in', inp, '--out', outdir, '--shards', str(shards)])
     if 'hang_line' in hr:
         k = hr['hang_line']
